@@ -322,3 +322,109 @@ func sortStrings(a []string) {
 		}
 	}
 }
+
+// CanonNoTokens is Canon(false) with lexer.Token / []lexer.Token fields masked.
+func (n *RNode) CanonNoTokens() string {
+	if n == nil {
+		return "nil"
+	}
+	s := n.Type + "{"
+	keys := make([]string, 0, len(n.F))
+	for k := range n.F {
+		keys = append(keys, k)
+	}
+	sortStrings(keys)
+	for _, k := range keys {
+		switch v := n.F[k].(type) {
+		case *RNode:
+			s += k + ":" + v.CanonNoTokens() + ","
+		case []*RNode:
+			s += k + ":["
+			for _, x := range v {
+				s += x.CanonNoTokens() + ","
+			}
+			s += "],"
+		case lexer.Token, []lexer.Token:
+			s += k + ":tok(*),"
+		case []string:
+			s += fmt.Sprintf("%s:%q,", k, v)
+		default:
+			s += fmt.Sprintf("%s:%#v,", k, v)
+		}
+	}
+	return s + "}"
+}
+
+// TokenFieldStartsElided reports whether some lexer.Token field (or the first
+// element of a []lexer.Token field) of the tree holds a token of an elided type.
+func (n *RNode) TokenFieldStartsElided(el map[lexer.TokenType]bool) bool {
+	if n == nil {
+		return false
+	}
+	for _, v := range n.F {
+		switch x := v.(type) {
+		case lexer.Token:
+			if el[x.Type] {
+				return true
+			}
+		case []lexer.Token:
+			if len(x) > 0 && el[x[0].Type] {
+				return true
+			}
+		case *RNode:
+			if x.TokenFieldStartsElided(el) {
+				return true
+			}
+		case []*RNode:
+			for _, k := range x {
+				if k.TokenFieldStartsElided(el) {
+					return true
+				}
+			}
+		}
+	}
+	return false
+}
+
+// CanonModuloElided is Canon(false) with tokens of elided types dropped from
+// []lexer.Token fields: the run of a multi-token capture contains the elided
+// tokens lying between its matched tokens, which legitimately vary with spacing.
+func (n *RNode) CanonModuloElided(el map[lexer.TokenType]bool) string {
+	if n == nil {
+		return "nil"
+	}
+	s := n.Type + "{"
+	keys := make([]string, 0, len(n.F))
+	for k := range n.F {
+		keys = append(keys, k)
+	}
+	sortStrings(keys)
+	for _, k := range keys {
+		switch v := n.F[k].(type) {
+		case *RNode:
+			s += k + ":" + v.CanonModuloElided(el) + ","
+		case []*RNode:
+			s += k + ":["
+			for _, x := range v {
+				s += x.CanonModuloElided(el) + ","
+			}
+			s += "],"
+		case lexer.Token:
+			s += fmt.Sprintf("%s:tok(%d,%q),", k, v.Type, v.Value)
+		case []lexer.Token:
+			s += k + ":toks["
+			for i, t := range v {
+				if el[t.Type] && i > 0 {
+					continue
+				}
+				s += fmt.Sprintf("(%d,%q),", t.Type, t.Value)
+			}
+			s += "],"
+		case []string:
+			s += fmt.Sprintf("%s:%q,", k, v)
+		default:
+			s += fmt.Sprintf("%s:%#v,", k, v)
+		}
+	}
+	return s + "}"
+}
